@@ -40,7 +40,7 @@ def write_conf(work, fmt, out, chain=None):
     return conf
 
 
-def check_records(records, threads, nt, nc, F, wit, tag, lone_tid=None, lone_pt=None, with_threads=True):
+def check_records(records, threads, nt, nc, F, wit, tag, lone_tid=None, lone_pt=None, with_threads=True, nullargv=False):
     """records: list of str lines; threads: {t: (pthread, ktid)}"""
     seen = {}
     ok = 0
@@ -56,7 +56,10 @@ def check_records(records, threads, nt, nc, F, wit, tag, lone_tid=None, lone_pt=
             continue
         tok = m.group(1)
         seen[tok] = seen.get(tok, 0) + 1
-        if cmd != "/bin/%s arg-%s" % (tok, tok):
+        want_cmd = "/bin/%s arg-%s" % (tok, tok)
+        if nullargv and tok != "LONEz" and int(m.group(3)) % 5 == 3:
+            want_cmd = "/bin/%s" % tok              # argv NULL or {NULL}: cmdline falls back to the path
+        if cmd != want_cmd:
             F.violation("C09:%s:cross-call-leak" % tag, "record of %s carries cmdline %r (another call's arguments)" % (tok, cmd[:100]), wit)
             continue
         if tok == "LONEz":
@@ -140,12 +143,31 @@ def dfs_shard(arg):
 def stress_run(arg):
     bld, kind, nt, ncalls, fmt, out, seed, root, idx = arg[:9]
     chain = arg[9] if len(arg) > 9 else None
+    opts = arg[10] if len(arg) > 10 else {}          # nullargv / canary / stack / socket_full / extra config lines
     work = os.path.join(root, "s%s%04d" % (kind, idx))
     os.makedirs(work, exist_ok=True)
     logp = os.path.join(work, "log")
     sockp = os.path.join(work, "sock")
     outspec = {"file": "file:" + logp, "noop": "noop", "devnull": "devnull", "socket": "socket:" + sockp, "devlog": "devlog"}[out]
     conf = write_conf(work, fmt, outspec, chain[0] if chain else None)
+    if opts.get("conf_extra"):
+        with open(os.path.join(conf, "snoopy.ini"), "a") as f:
+            f.write(opts["conf_extra"])
+    keep = None
+    if opts.get("socket_full"):
+        # the socket sink exists, is never read and its queue is full: every send fails after a successful connect
+        import socket as _s
+        rs = _s.socket(_s.AF_UNIX, _s.SOCK_DGRAM)
+        rs.bind(sockp)
+        os.chmod(sockp, 0o777)
+        snd = _s.socket(_s.AF_UNIX, _s.SOCK_DGRAM)
+        snd.setblocking(False)
+        try:
+            while True:
+                snd.sendto(b"x" * 2000, sockp)
+        except OSError:
+            pass
+        keep = (rs, snd)
     exe = os.path.join(HBIN, "vthreads-tsan" if kind == "tsan" else "vthreads")
     dsock = None
     if out == "devlog" and kind != "tsan":
@@ -174,14 +196,16 @@ def stress_run(arg):
                         pass
         th_ = threading.Thread(target=drain)
         th_.start()
-    r = subprocess.run([exe, "--mount", "%s:%s" % (conf, SYSCONF), "--threads", str(nt), "--calls", str(ncalls), "--seed", str(seed), "--out", os.path.join(work, "issued")],
+    xargs = (["--nullargv"] if opts.get("nullargv") else []) + (["--canary"] if opts.get("canary") else []) + (["--stack", str(opts["stack"])] if opts.get("stack") else [])
+    r = subprocess.run([exe, "--mount", "%s:%s" % (conf, SYSCONF), "--threads", str(nt), "--calls", str(ncalls), "--seed", str(seed), "--out", os.path.join(work, "issued")] + xargs,
                        env=env, capture_output=True, timeout=1800, cwd=work)
+    del keep
     if dsock is not None:
         stop.append(1)
         th_.join()
     F = Findings(PROP)
     st = dict(stress_runs=1, stress_calls=nt * ncalls, tsan_reports=0, concurrent_runs=0)
-    wit = dict(kind=kind, threads=nt, calls=ncalls, format=fmt, output=out, seed=seed, filter_chain=chain)
+    wit = dict(kind=kind, threads=nt, calls=ncalls, format=fmt, output=out, seed=seed, filter_chain=chain, options=opts)
     if r.returncode != 0 and kind != "tsan":
         F.violation("C09:stress:crash:rc%d" % r.returncode, "threads driver died (rc %d) with format %s" % (r.returncode, fmt[:60]), dict(wit, stderr=r.stderr.decode("latin-1")[-500:]))
         return F, st
@@ -194,6 +218,18 @@ def stress_run(arg):
                 threads[int(p[1])] = (int(p[2]), int(p[3]))
             elif p[0] == "DONE":
                 maxin = int(p[3].split("=")[1])
+            elif p[0] == "CANARY":
+                cv = dict(x.split("=") for x in p[1:])
+                st["canary_iterations"] = int(cv["iterations"])
+                # a thread that never calls exec: its descriptors, the process umask and the working directory are none of the
+                # library's business, whatever the other threads are logging at that moment
+                if int(cv["fd_lost"]):
+                    F.violation("C09:stress:bystander-descriptor-closed", "a descriptor owned by a thread that never execs was closed or replaced %s times while %d threads were logging to %s" % (
+                        cv["fd_lost"], nt, out), wit)
+                if int(cv["umask_changed"]):
+                    F.violation("C09:stress:process-umask-disturbed", "a bystander thread saw the process umask differ from 027 %s times while %d threads were logging to %s" % (cv["umask_changed"], nt, out), wit)
+                if int(cv["cwd_changed"]):
+                    F.violation("C09:stress:process-cwd-disturbed", "a bystander thread saw the working directory change %s times" % cv["cwd_changed"], wit)
     except OSError:
         pass
     if maxin >= 2:
@@ -247,7 +283,7 @@ def stress_run(arg):
                 F.violation("C09:stress:dropped-call-logged", "%d of %d calls that the chain %r drops when made alone were logged under %d concurrent threads" % (
                     len(recs), nt * ncalls + 1, chain[0], nt), dict(wit, example=recs[:3]))
         else:
-            check_records(recs, threads, nt, ncalls, F, wit, "stress")
+            check_records(recs, threads, nt, ncalls, F, wit, "stress", nullargv=bool(opts.get("nullargv")))
         st["stress_records"] = len(recs)
     rmwork(work)
     return F, st
@@ -302,11 +338,28 @@ def main():
         sj.append((bld, "plain", rng.choice([8, 16, 32]), 2000, "%{cmdline}", "devlog", rng.randrange(1, 10**6), root, idx))
         idx += 1
     # filter chains with several elements under real concurrency (the chain walker must not share state between threads)
-    for i in range(8 if tr == "quick" else 80):
+    for i in range(12 if tr == "quick" else 120):
+        longl = ",".join(str(1000 + j) for j in range(150))           # long lists: the list parser itself runs for a while in every thread
         ch = rng.choice([("noop;noop;noop;only_uid:7", "drop"), ("noop;exclude_uid:5;only_uid:0,1;noop;exclude_uid:0", "drop"),
-                         ("noop;only_uid:0;exclude_uid:7;noop", "log"), ("only_root;noop;noop;noop;exclude_spawns_of:nope", "log")])
+                         ("noop;only_uid:0;exclude_uid:7;noop", "log"), ("only_root;noop;noop;noop;exclude_spawns_of:nope", "log"),
+                         ("only_uid:%s,0" % longl, "log"), ("exclude_uid:%s,0" % longl, "drop"), ("exclude_uid:%s;only_uid:%s,0" % (longl, longl), "log"),
+                         ("exclude_spawns_of:%s" % ",".join("prog%d" % j for j in range(120)), "log")])
         sj.append((bld, "plain", rng.choice([16, 32, 64]), 1500 if tr == "quick" else 3000, FMT, "file", rng.randrange(1, 10**6), root, idx, ch))
         idx += 1
+    # NULL / empty argument vectors from several threads at once; a bystander thread watching its descriptors, the umask and the
+    # cwd; small thread stacks with the largest configurable limits; a socket sink whose sends all fail
+    BIG = "log_message_max_length = 1048575\ndatasource_message_max_length = 1048575\n"
+    for i in range(4 if tr == "quick" else 40):
+        sj.append((bld, "plain", rng.choice([4, 16, 32]), 1500, FMT, "file", rng.randrange(1, 10**6), root, idx, None, dict(nullargv=True, canary=True)))
+        idx += 1
+    for i in range(3 if tr == "quick" else 30):
+        sj.append((bld, "plain", rng.choice([8, 32]), 1500, FMT, "socket", rng.randrange(1, 10**6), root, idx, None, dict(canary=True, socket_full=True)))
+        idx += 1
+    for i in range(2 if tr == "quick" else 20):
+        sj.append((bld, "plain", rng.choice([4, 16]), 300, FMT, "file", rng.randrange(1, 10**6), root, idx, None, dict(stack=256 * 1024, conf_extra=BIG, canary=True)))
+        idx += 1
+    sj.append((tbld, "tsan", 16, 200, FMT, "file", rng.randrange(1, 10**6), root, idx, None, dict(nullargv=True)))
+    idx += 1
     # (c) non-thread-safe build, single-threaded use
     nbld = vbuild.build("plain-nts")
     for f, st in pmap(stress_run, sj, 8):
